@@ -1,3 +1,4 @@
+import re
 """Loader and pretty printer for the fact file produced by driver/."""
 import json
 
@@ -7,6 +8,7 @@ class Body:
         self.d = d
         self.key = d["key"]
         self.uid = d["uid"]
+        self.base_uid = re.sub(r'#[is]+$', '', d["uid"])   # identity of the source function whatever the view
         self.kind = d["kind"]
         self.name = d["name"]
         self.vis = d["vis"]
